@@ -26,6 +26,18 @@ CHECKS = {
         technique="who-may-write / provenance over SSA (cursor vs. persisted job kinds read from newCheckpoint's own code), single-owner call-site enumeration, gate and barrier walks (stop ordering, job-created-implies-run)",
         text="Level 'other', structural part only: decides that every job kind created while the catch-up cursor advances is kept covered by the checkpoint writer (kinds are read from the checkpoint code, not frozen), that the persisted resume range is copied unchanged, that coordinator state is written only from the coordinator goroutine's functions, that the final checkpoint is taken after cancel and a successful wait, and that a created job is always run. The invariant 'every height is in exactly one set' over interleavings and crash points is not decided.",
         design="DESIGN.md §3 C04"),
+    "C05": dict(
+        technique="sibling/forwarder agreement over all eds.Accessor implementations + provenance of accessors returned by the store + writer/reader layout table extracted from the typed syntax tree",
+        text="Level 'other', three necessary conditions: every pure forwarding method of every accessor wrapper calls the same-named method with parameters in order; every accessor the store hands out derives from the validating/close-once/proofs-cache wrapper or a cache lookup; the file header is written and read at the same byte ranges and the ODS writer omits exactly what the readers substitute (tail padding). Byte equality of contents across representations and the proofs cache's consistency are value-level and not decided.",
+        design="DESIGN.md §3 C05"),
+    "C07": dict(
+        technique="gate walks with seeded predicate facts (link-after-complete), constant flag evaluation (exclusive create), barrier walks (rollback), acquire/release pairing of file descriptors",
+        text="Level 'other', ordering and pairing only: decides that a height link is created only across a successful create or a successful validate/recover of an existing file (fact-carrying walk), that write-mode opens are exclusive creates, that error returns pass a rollback, that descriptors are closed on every failure path, and that the empty block is only linked. Post-crash directory states are not enumerated.",
+        design="DESIGN.md §3 C07"),
+    "C08": dict(
+        technique="lock-order graph over four packages (stripes as one class, interface and loader-closure edges) + guarded-by with call-path propagation + check-then-add critical-section rule + lock pairing + close-once guard sibling agreement",
+        text="Level 'other', locks and resources: decides that the lock-order graph across store, cache, file and accessor wrappers is acyclic, that lazily filled state is accessed under its lock (reasoned exceptions), that the accessor cache looks up and adds within one critical section, that every function releases what it locks, and that every close-once method tests the closed flag first. Torn reads, termination and linearizability are schedule-dependent and not decided.",
+        design="DESIGN.md §3 C08"),
     "C06": dict(
         technique="escape analysis of decoded responses over SSA closures (verified-before-escape with kill on the failure edge) + definite-assignment of decoder receivers + status-table agreement + panic reachability over the call graph + acquire/release pairing",
         text="Level 'other': decides that a response decoded from a peer can reach a return of the shrex getter only across the verifying executeRequest's success edge or after being overwritten; that bitswap containers are written only behind id equality and verification; that every pointer-receiver decoder fully overwrites its receiver on every success path (no state of a rejected response survives a retry); that the client handles every status the server writes and not-found is reported as not-found through all layers; that no explicit panic is reachable from the network getters (call paths printed); that store getters close accessors and the cascade discards failed getters' values. Retry dynamics and deadlines are not decided.",
